@@ -1,8 +1,9 @@
 (* C14  Files map to class and node names one-to-one, collisions rejected.  Statements only;
    proofs in Proofs/NamesFacts.v about Model/Names.v (entity_of, discover).
    PARTIAL: the directory walk (walkdir, symlinks, std::path) that produces the entry list is
-   outside the model; the naming rule itself is compared with a Python reading on every run. *)
-From RV Require Import Model.Names Proofs.NamesFacts.
+   outside the model; the naming rule is proved in general (Proofs/NamesRule.v) and
+   compared with a Python reading on every run. *)
+From RV Require Import Model.Names Proofs.NamesFacts Proofs.NamesRule.
 
 (** Discovery succeeds exactly when all names are distinct ... *)
 Theorem C14_succeeds_iff_names_distinct :
@@ -45,6 +46,57 @@ Theorem C14_discovered_names_are_absolute :
   forall loc cls, no_leading_dot cls -> abs_class_name loc cls = cls.
 Proof. exact abs_absolute. Qed.
 Eval cbv in "ASSUMPTIONS-OF C14_discovered_names_are_absolute"%string. Print Assumptions C14_discovered_names_are_absolute.
+
+(** The naming rule in general (Proofs/NamesRule.v): every .yml / .yaml file, at any depth, with any
+    non-empty stem, defines the class named by its relative path with separators turned into dots and
+    the extension dropped ([named_path]: X/init names X), and its relative includes start from its
+    directory ([location]) *)
+Theorem C14_class_is_named_by_its_relative_path :
+  forall compose dirs stem ext,
+    stem <> ""%string -> yaml_extension ext ->
+    entity_of KClass compose (dirs ++ [(stem ++ "." ++ ext)%string]) =
+      Some {| en_name := join "." (named_path dirs stem);
+              en_path := dirs ++ [(stem ++ "." ++ ext)%string];
+              en_loc := location dirs stem |}.
+Proof. exact class_naming_rule. Qed.
+Eval cbv in "ASSUMPTIONS-OF C14_class_is_named_by_its_relative_path"%string. Print Assumptions C14_class_is_named_by_its_relative_path.
+
+(** Nodes are named by file basename unless node-name composition is on ... *)
+Theorem C14_node_is_named_by_its_basename :
+  forall dirs stem ext,
+    stem <> ""%string -> stem <> "init"%string -> yaml_extension ext ->
+    entity_of KNode false (dirs ++ [(stem ++ "." ++ ext)%string]) =
+      Some {| en_name := stem; en_path := dirs ++ [(stem ++ "." ++ ext)%string]; en_loc := [] |}.
+Proof. exact node_named_by_basename. Qed.
+Eval cbv in "ASSUMPTIONS-OF C14_node_is_named_by_its_basename"%string. Print Assumptions C14_node_is_named_by_its_basename.
+
+(** ... in which case nested paths compose ... *)
+Theorem C14_composed_node_name_is_the_nested_path :
+  forall d dirs stem ext,
+    stem <> ""%string -> stem <> "init"%string -> yaml_extension ext -> starts_with_underscore d = false ->
+    entity_of KNode true ((d :: dirs) ++ [(stem ++ "." ++ ext)%string]) =
+      Some {| en_name := join "." ((d :: dirs) ++ [stem]); en_path := (d :: dirs) ++ [(stem ++ "." ++ ext)%string]; en_loc := d :: dirs |}.
+Proof. exact node_name_composes. Qed.
+Eval cbv in "ASSUMPTIONS-OF C14_composed_node_name_is_the_nested_path"%string. Print Assumptions C14_composed_node_name_is_the_nested_path.
+
+(** ... except below (top-level) directories starting with an underscore. *)
+Theorem C14_no_composition_below_underscore_directories :
+  forall d dirs stem ext,
+    stem <> ""%string -> stem <> "init"%string -> yaml_extension ext -> starts_with_underscore d = true ->
+    entity_of KNode true ((d :: dirs) ++ [(stem ++ "." ++ ext)%string]) =
+      Some {| en_name := stem; en_path := (d :: dirs) ++ [(stem ++ "." ++ ext)%string]; en_loc := [] |}.
+Proof. exact node_below_underscore_directory. Qed.
+Eval cbv in "ASSUMPTIONS-OF C14_no_composition_below_underscore_directories"%string. Print Assumptions C14_no_composition_below_underscore_directories.
+
+(** Other files are ignored: another extension, no extension, nothing before the extension. *)
+Theorem C14_other_files_are_ignored :
+  forall kind compose dirs,
+    (forall stem ext, stem <> ""%string -> nodot ext -> 1 <= String.length ext -> ~ yaml_extension ext ->
+       entity_of kind compose (dirs ++ [(stem ++ "." ++ ext)%string]) = None) /\
+    (forall name, nodot name -> entity_of kind compose (dirs ++ [name]) = None) /\
+    (forall ext, nodot ext -> entity_of kind compose (dirs ++ [("." ++ ext)%string]) = None).
+Proof. exact other_files_are_ignored. Qed.
+Eval cbv in "ASSUMPTIONS-OF C14_other_files_are_ignored"%string. Print Assumptions C14_other_files_are_ignored.
 
 (** The naming rule on representative shapes (evaluated in the kernel). *)
 Example C14_naming_examples :
